@@ -108,8 +108,22 @@ func runC01(ctx *vh.Ctx) error {
 			o.MaxNodes = 12
 		}
 		c := &c01Case{G: gcase.Gen(ctx.Rng, o), Input: fmt.Sprintf("x%d", ctx.Rng.Intn(5))}
+		before := len(ctx.Res.Disagreements)
 		if err := c01One(ctx, c); err != nil {
 			return err
+		}
+		if len(ctx.Res.Disagreements) > before {
+			ctx.ShrinkNew(before, 300, func(cs any) []any {
+				cc, ok := cs.(*c01Case)
+				if !ok {
+					return nil
+				}
+				var out []any
+				for _, g := range gcase.ShrinkCandidates(cc.G) {
+					out = append(out, &c01Case{G: g, Input: cc.Input})
+				}
+				return out
+			}, func(sh *vh.Ctx, cand any) { _ = c01One(sh, cand.(*c01Case)) })
 		}
 	}
 	for _, f := range c01Extra {
